@@ -1,3 +1,2 @@
--- This module serves as the root of the `O4` library.
--- Import modules here that should be built as part of the library.
-import O4.Basic
+-- Root of the `O4` library: models, lemmas, property theorems.
+import O4.Model.Bytes
